@@ -65,6 +65,9 @@ type stdioClientTransport struct {
 	closeOnce sync.Once
 	closed    atomic.Bool
 
+	// processDone is closed by processWatcher once Cmd.Wait has returned (Wait must be called only once).
+	processDone chan struct{}
+
 	sessionID string
 	logger    Logger
 
@@ -174,6 +177,8 @@ func (t *stdioClientTransport) startProcess() error {
 	// Create JSON encoder/decoder.
 	t.encoder = json.NewEncoder(stdin)
 	t.decoder = json.NewDecoder(stdout)
+
+	t.processDone = make(chan struct{})
 
 	// Start background goroutines.
 	go t.readLoop()
@@ -566,6 +571,7 @@ func (t *stdioClientTransport) processWatcher() {
 	}
 
 	err := t.process.Wait()
+	close(t.processDone)
 	if !t.closed.Load() {
 		if err != nil {
 			t.logger.Debugf("Process exited with error: %v", err)
@@ -629,11 +635,9 @@ func (t *stdioClientTransport) close() error {
 		}
 
 		// Wait a bit for graceful shutdown.
-		done := make(chan struct{})
-		go func() {
-			t.process.Wait()
-			close(done)
-		}()
+		// processWatcher is the only caller of Cmd.Wait (a second, concurrent Wait is a data race and
+		// fails with "Wait was already called"); wait for it here.
+		done := t.processDone
 
 		select {
 		case <-done:
